@@ -8,7 +8,7 @@ ID = 'C07'
 RULE = ('cases: (a) exhaustive: every connected graph of the networkx atlas up to 5 (quick) / 6 (thorough) nodes x '
         'bond-order assignments (all assignments over {0,1,2} when |E| <= 6 (quick) / 8 (thorough), otherwise '
         'uniform + one-hot assignments over {0,2,3,4}) x 2 relabelings (identity, reversed+offset keys) x 2 name '
-        'patterns; (b) Hypothesis: random trees / cyclic graphs up to 25 nodes, orders 0-4, arbitrary integer or '
+        'patterns; (b) Hypothesis: random trees / cyclic graphs up to 25 nodes (15 % dense graphs of 6-11 nodes with >= 10 simultaneously open ring bonds), orders 0-4, arbitrary integer or '
         'string keys, shuffled insertion order. Oracle: read_cgsmiles(write_cgsmiles_graph(G)) succeeds and is '
         'isomorphic to G on fragname and order. classes record whether a non-single order sits on a chain edge, '
         'a branch edge or a ring-closing edge of the writer\'s DFS. non-trivial = >=3 nodes and (a cycle or a '
@@ -66,6 +66,13 @@ def gen(R, tier):
     for i, p in enumerate(parents, start=1):
         edges[(p, i)] = R.choice(orders)
     nextra = R.choice([0, 0, 1, 2, 4]) if n >= 3 else 0
+    dense = n >= 6 and R.chance(0.15)
+    if dense:
+        # many simultaneously open ring bonds (markers >= 10)
+        n = min(n, 11)
+        parents = parents[:n - 1]
+        edges = {(p, i): edges[(p, i)] for i, p in enumerate(parents, start=1)}
+        nextra = R.randint(n, n * (n - 1) // 2)
     for _ in range(nextra):
         a, b = sorted(R.sample(range(n), 2))
         if (a, b) not in edges:
@@ -90,7 +97,7 @@ def gen(R, tier):
     el = [[keys[a], keys[b], o] for (a, b), o in edges.items()]
     if R.chance(0.5):
         R.shuffle(el)
-    return make_case(nodes, el, {'random', 'keys:' + keykind})
+    return make_case(nodes, el, {'random', 'keys:' + keykind} | ({'dense'} if dense else set()))
 
 
 def build(case):
